@@ -19,6 +19,7 @@
 From Coq Require Import String ZArith NArith Bool List Lia.
 From V Require Import Base.GoInt Base.Bytes Merkle.Merkle TLS.TlsModel TLS.TlsRoundTripA CT.Rfc6962Spec
   CTFE.HandlersModel CTFE.LogModel CTFE.LogProofsC CTFE.LogProofsD CTFE.LogProofsE CTFE.LogProofsF CTFE.LogCase.
+From V Require Import gen.Sth CTFE.LogGenTie.
 Import ListNotations.
 Open Scope Z_scope.
 
@@ -265,3 +266,14 @@ Proof.
   split; [do 2 eexists; vm_compute; reflexivity|].
   repeat split; vm_compute; reflexivity.
 Qed.
+
+(* the two numeric fields of a served tree head as sth.go LogSTHGetter.GetSTH computes them today (translated on
+   every run): the backend root's nanosecond timestamp divided by 1000 twice - the millisecond reading the model's
+   fe_get_sth signs (`bns b / 1000 / 1000`) - and the backend's tree size unchanged *)
+Theorem sth_timestamp_as_in_source : forall ns, 0 <= ns -> sth_timestamp_gen ns = ns / 1000 / 1000.
+Proof. exact sth_timestamp_meaning. Qed.
+Print Assumptions sth_timestamp_as_in_source.
+
+Theorem sth_tree_size_as_in_source : forall size, sth_tree_size_gen size = size.
+Proof. exact sth_tree_size_meaning. Qed.
+Print Assumptions sth_tree_size_as_in_source.
